@@ -494,7 +494,11 @@ def run_mutants(run, mod, contracts, registry):
             run.mutants["skipped"] += 1
             continue
         run.mutants["run"] += 1
-        if failed:
+        if failed and all(f[3].get("status") == "stale" for f in failed):
+            # the mutation made the contract inapplicable (unsupported construct): the deductive part abstains on such
+            # code, which is neither a kill nor a survival - counted separately, reported in the evidence
+            run.mutants.setdefault("made_stale", []).append(m.get("name", m["find"]))
+        elif failed:
             run.mutants["killed"] += 1
         else:
             run.mutants["survived"].append(m.get("name", m["find"]))
